@@ -510,7 +510,49 @@ def classify_staging_expr(m, f, e, path_param, var, depth=0):
         return "bad", "temporary file may live on another file system (rename not atomic)"
     if isinstance(e, ast.Constant):
         return "bad", "constant staging name shared by all targets"
-    return "unknown", ""
+    if is_name(e, path_param):
+        return "bad", "the staging name is the target path itself: the value is written straight into the target, a failed or interrupted write leaves a partial value under the final name"
+    return _evaluate_staging_expr(m, f, e, path_param)
+
+
+_PROBE_TARGETS = ["/d/report.txt", "/d/report.md", "/d/report", "/d/x.y/report.txt", "/d/report.txt.bak", "/d/.report"]
+
+
+def _evaluate_staging_expr(m, f, e, path_param):
+    """A staging name computed some other way (a helper of the package, library path functions): evaluated on a handful of target
+    paths, as strings.  The derivation must be injective (two targets never share a staging file), must stay in the target's
+    directory (the rename is atomic only within a file system), and must never produce a name that is itself one of the targets."""
+    import os as _os
+    from ..absval import AbsRaise, Env, Interp
+    out = {}
+    for t in _PROBE_TARGETS:
+        interp = Interp(m, ext={"os.path.splitext": _os.path.splitext, "os.path.basename": _os.path.basename, "os.path.dirname": _os.path.dirname,
+                                "os.path.join": _os.path.join, "os.fspath": lambda x: x, "os.fsdecode": lambda x: x, "os.path.split": _os.path.split})
+        env = Env(f)
+        env.vars[path_param] = t
+        # module-level string constants the expression refers to resolve through the module scope
+        try:
+            v = interp.eval(e, env)
+        except AbsRaise as ex:
+            return "unknown", ""
+        except AnalysisError:
+            return "unknown", ""
+        if not isinstance(v, str):
+            return "unknown", ""
+        out[t] = v
+    names = list(out.values())
+    if len(set(names)) != len(names):
+        a_, b_ = next((x, y) for i, x in enumerate(_PROBE_TARGETS) for y in _PROBE_TARGETS[i + 1:] if out[x] == out[y])
+        return "bad", (f"evaluated on {len(out)} target paths: the targets {a_!r} and {b_!r} share the staging file {out[a_]!r} - overlapping "
+                       f"writes publish one value under the other's name")
+    for t, v in out.items():
+        if v in out:
+            return "bad", f"evaluated: the staging name of {t!r} is {v!r}, which is itself a possible target"
+        if _os.path.dirname(v) != _os.path.dirname(t):
+            return "bad", f"evaluated: the staging file {v!r} of {t!r} is in another directory (rename may cross file systems)"
+        if not v.startswith(t):
+            return "bad", f"evaluated: the staging name {v!r} does not extend the full target name {t!r}: targets that differ only in the replaced part collide"
+    return "ok", f"evaluated on {len(out)} target paths: injective, same directory, never a target name, extends the full target name"
 
 
 def check_mode_guard(ctx, m, f):
